@@ -8,7 +8,7 @@ Transcripts come from `harness/scen/peerfail.cpp` and use the event vocabulary o
   predicate of `Spec/C15.lean` - `specRun`, then `specFinal` - is evaluated on the observations only.  This file
   contains no property clause of its own (one source of truth; `PeerFail.Spec.model_satisfies_spec_partial` proves that the
   predicate accepts every trace of the plain-socket model).
-* **correspondence**: the machinery of the C18 driver is reused (`C18.go` with hooks that check nothing): the
+* **correspondence**: the machinery of the C18 driver is reused (`C18.go`, which checks no property clause): the
   kernel's (and, for TLS, the engine's) answers are replayed into the model, which must make the same calls and
   produce the same outcome - i.e. the observed outcome is a member of the set the model allows for this
   reaction of the kernel.
@@ -17,10 +17,10 @@ namespace SockModel.Drive.C15
 open SockModel SockModel.Drive SockModel.Net SockModel.Tls SockModel.Drive.C18
 open SockModel.PeerFail.Spec
 
-def setupC15 (m : List (String × String)) : List C18.EpSt × String :=
+def setupC15 (m : List (String × String)) : List C18.EpSt :=
   let kind := kvGet m "x"
-  ([{ name := "x", kind := kind, tls := kvGet m "tls" == "1", driver := if kind == "async" then "dx" else "",
-      rsz := (kvGet m "rsz").toNat?.getD 4096 }], "none")
+  [{ name := "x", kind := kind, tls := kvGet m "tls" == "1", driver := if kind == "async" then "dx" else "",
+     rsz := (kvGet m "rsz").toNat?.getD 4096 }]
 
 /-! ### parsing lines into observations -/
 
@@ -94,22 +94,8 @@ def toObs (l : String) : Option Obs :=
     some (.after ((kvGet m "order").toList.map phaseOf) ((kvGet m "big").toNat?.getD 0))
   | _ => none
 
-def isHarnessError (l : String) : Option String :=
-  match words l with
-  | "->" :: "harness-error" :: x => some ("harness error: " ++ " ".intercalate x)
-  | _ => none
-
-/-- the lines up to the first `-> harness-error` line (the harness itself gave up there: not a verdict about the
-library), and that line's text -/
-def cutAtHarnessError : List String → List String × Option String
-  | [] => ([], none)
-  | l :: rest =>
-    match isHarnessError l with
-    | some m => ([], some m)
-    | none => let (a, b) := cutAtHarnessError rest; (l :: a, b)
-
-/-- correspondence only: the C18 walker with hooks that check nothing -/
-def hooksCorr : Hooks := { final := fun _ => none, ev := fun d _ => .ok d, setup := setupC15 }
+/-- correspondence only: the C18 walker (it checks no property clause) with the endpoint of this scenario -/
+def hooksCorr : Hooks := { setup := setupC15 }
 
 def runWith (C : Cfg) (body : List String) : Verdict :=
   let (pre, herr) := cutAtHarnessError body
@@ -121,7 +107,7 @@ def runWith (C : Cfg) (body : List String) : Verdict :=
     | none =>
       match specFinal s with
       | some m => Verdict.spec m
-      | none => go C hooksCorr { strictInit := false } body
+      | none => go C hooksCorr {} body
 
 def runCase (body : List String) : Verdict := runWith Cfg.current body
 
